@@ -6,5 +6,5 @@ Extraction Blacklist List String Int.
 Extraction "../ocaml/extracted/c10_transform.ml"
   polygon_apply_ops polygon_scale flexpath_apply_ops rp_apply_ops placement_apply_ops
   ops_map placements_map placement_map aff_apply aff_linear aff_compose
-  flexpath_transform_required rep_transform rep_offsets
+  rep_transform rep_offsets
   vred ared affred plred polyred fpred rpred repred grid Qred Qmake N.eqb.
